@@ -72,7 +72,7 @@ def slotOf (o : Op) : Option (Option Nat) := (o.get? "at").map String.toNat?
 def stepCfg (D : Layer) (o : Op) : Layer × String :=
   match o.verb with
   | "reset" => ([], "ok")
-  | "load" =>
+  | "load" | "loadfromviper" =>   -- `config.Load` / `config.LoadFromViper`: the same function of (command line, file, defaults)
     let args := parsePairs (o.str "fl") false
     let file := parsePairs (o.str "fi") true
     if !argsOK table args then (D, "err:flag-parse") else
@@ -132,7 +132,7 @@ def step (s : St) (line : String) : St × String :=
     -- `cmd=<n>` / `at=<n>` (which command object / which home) do not matter to the model, but a
     -- malformed number is a malformed op on both sides
     let malformed := fun k => (o.get? k).map String.toNat? == some none
-    if (o.verb = "load" && malformed "cmd") ||
+    if ((o.verb = "load" || o.verb = "loadfromviper") && malformed "cmd") ||
        ((o.verb = "save" || o.verb = "savex") && (malformed "cmd" || malformed "at")) then (s, "bad-op") else
     let (D, out) := stepCfg s.D o
     ({ s with D := D }, out)
